@@ -15,6 +15,20 @@ use serde::{Deserialize, Serialize};
 use serde_json::Value;
 use std::sync::atomic::{AtomicU64, Ordering};
 
+/// Signatures carry no ':' (the driver shrinks within the text before the first ':'; with a
+/// colon-free signature a failure can only shrink to a case with exactly the same signature, so an
+/// unknown failure can never be minimised into a tolerated known one). Panics keep their form.
+fn vfail(sig: impl Into<String>, detail: impl Into<String>) -> Verdict {
+    Verdict::fail(nsig(&sig.into()), detail)
+}
+fn nsig(s: &str) -> String {
+    if s.starts_with("panic:") {
+        s.to_string()
+    } else {
+        s.trim_end_matches(':').replace(':', "/")
+    }
+}
+
 pub const C42_PL: &str = include_str!("../../prolog/c42.pl");
 pub const NAMES: [&str; 3] = ["p", "q", "r"];
 
@@ -320,9 +334,9 @@ pub fn check(env: &mut Env, case: &Case) -> Verdict {
         let o = env.s.ask_once(&format!("consult('{dir}/{f}')"), "[]");
         match &o {
             Outcome::Sols(v) if v.len() == 1 => {}
-            Outcome::Panic(m) => return Verdict::fail(format!("panic:{}", m.split_whitespace().next().unwrap_or("?")), format!("loading {f}.pl panicked: {m}\n{}", layout())),
+            Outcome::Panic(m) => return vfail(format!("panic:{}", m.split_whitespace().next().unwrap_or("?")), format!("loading {f}.pl panicked: {m}\n{}", layout())),
             Outcome::Harness(m) => return Verdict::Discard(format!("harness:{}", m.chars().take(40).collect::<String>())),
-            other => return Verdict::fail(format!("load-failed:{f}"), format!("consult of {f}.pl gave {}\n{}", other.short(), layout())),
+            other => return vfail(format!("load-failed:{f}"), format!("consult of {f}.pl gave {}\n{}", other.short(), layout())),
         }
     }
     // probes
@@ -337,13 +351,21 @@ pub fn check(env: &mut Env, case: &Case) -> Verdict {
         for (n, name) in NAMES.iter().enumerate() {
             let r = resolve(&c, *ctx, n);
             let local = md.defs[n];
-            let how = if local {
-                if md.imports.iter().any(|imp| c.mods[imp.from].exports[n] && imp.select.map(|s| s[n]).unwrap_or(true)) {
-                    if md.defs_first {
-                        "local-before-import"
-                    } else {
-                        "local-shadows-import"
-                    }
+            // the module whose own definition must answer; its definition is exposed to the known
+            // "local definition before a later import of the same name" finding when it is written
+            // before an import that provides the name
+            let provider: Option<&Mod> = match &r {
+                None => None,
+                Some(t) if t == "user" => Some(&c.user),
+                Some(t) => c.mods.iter().enumerate().find(|(i, _)| mod_name(*i) == *t).map(|(_, m)| m),
+            };
+            let shadowing = |m: &Mod| m.imports.iter().any(|imp| c.mods[imp.from].exports[n] && imp.select.map(|s| s[n]).unwrap_or(true));
+            let exposed = provider.map(|pm| pm.defs_first && shadowing(pm)).unwrap_or(false);
+            let how = if exposed {
+                "local-before-import"
+            } else if local {
+                if shadowing(md) {
+                    "local-shadows-import"
                 } else {
                     "local"
                 }
@@ -396,9 +418,9 @@ pub fn check(env: &mut Env, case: &Case) -> Verdict {
     let o = env.s.ask_once(&format!("c42_all([{}], Zout)", glist.join(",")), "Zout");
     let out = match &o {
         Outcome::Sols(v) if v.len() == 1 => v[0].clone(),
-        Outcome::Panic(m) => return Verdict::fail(format!("panic:{}", m.split_whitespace().next().unwrap_or("?")), format!("probing panicked: {m}\n{}", layout())),
+        Outcome::Panic(m) => return vfail(format!("panic:{}", m.split_whitespace().next().unwrap_or("?")), format!("probing panicked: {m}\n{}", layout())),
         Outcome::Harness(m) => return Verdict::Discard(format!("harness:{}", m.chars().take(40).collect::<String>())),
-        other => return Verdict::fail("driver:unexpected", format!("c42_all gave {}", other.short())),
+        other => return vfail("driver:unexpected", format!("c42_all gave {}", other.short())),
     };
     let Some(rs) = items(&out) else { return Verdict::Discard("harness:result-shape".into()) };
     if rs.len() != probes.len() {
@@ -436,7 +458,7 @@ pub fn check(env: &mut Env, case: &Case) -> Verdict {
                 }
                 _ => "other",
             };
-            return Verdict::fail(format!("{got_kind}:{}", p.class), format!("{}: got {}; expected {want}\n{}", p.label, r.text(), layout()));
+            return vfail(format!("{got_kind}:{}", p.class), format!("{}: got {}; expected {want}\n{}", p.label, r.text(), layout()));
         }
         if !classes.contains(&p.class) {
             classes.push(p.class.clone());
